@@ -347,14 +347,16 @@ func monFcx(prop string) Monitor {
 			if i := strings.Index(v, ":"); i > 0 {
 				class = v[:i]
 			}
-			p := "C05"
+			ps := map[string]bool{"C05": true}
 			switch class {
-			case "window_exceeded", "oversized_chunk", "receiver_window", "credit_mismatch":
-				p = "C06"
+			case "window_exceeded", "oversized_chunk", "receiver_window":
+				ps = map[string]bool{"C06": true}
+			case "credit_mismatch":
+				ps = map[string]bool{"C05": true, "C06": true} // a leak strands senders (C05); a surplus exceeds consumption (C06)
 			case "chunks_corrupted", "chunk_flags", "bytes_lost":
-				p = "C01"
+				ps = map[string]bool{"C01": true}
 			}
-			if p != prop {
+			if !ps[prop] {
 				continue
 			}
 			vs = append(vs, Violation{Prop: prop, Class: class, Details: fmt.Sprintf("fcx %+v: %s (schedule %v)", *c.Fcx, v, tr.Fcx.FailPath)})
